@@ -198,6 +198,24 @@ def canon(config: Any) -> tuple[Any, ...]:
     return tuple(out)
 
 
+def _as_arrays(value: Any, flavour: str, bases: list[np.ndarray], key: str = "") -> Any:
+    """Replace every numeric list (1-D or 2-D) of a configuration dictionary by an ndarray the caller keeps a handle on."""
+    if isinstance(value, dict):
+        return {k: (v if k in ("options", "optimizer", "samplers", "realization_filters", "function_estimators")
+                    else _as_arrays(v, flavour, bases, k)) for k, v in value.items()}
+    numeric = (isinstance(value, list) and value and key not in ("mask", "types", "samplers", "perturbation_types", "boundary_types")
+               and all(isinstance(item, float) or (isinstance(item, list) and item and all(isinstance(x, float) for x in item)) for item in value))
+    if not numeric or not np.all(np.isfinite(np.asarray(value, dtype=np.float64))):
+        return value
+    base = np.array(value, dtype=np.float64)
+    bases.append(base)
+    if flavour == "writable":
+        return base
+    view = base.view()
+    view.setflags(write=False)
+    return view
+
+
 def first_diff(a: tuple[Any, ...], b: tuple[Any, ...]) -> str:
     for x, y in zip(a, b):
         if x != y:
@@ -305,6 +323,45 @@ def judge_valid(case: dict[str, Any]) -> Judgement:
                 continue
             j.fail(f"deletable-field:{type(model).__name__}", path=path, field=name)
             break
+    # a variable transform that reverses the orientation of a variable (negative scale): the configuration is either
+    # rejected, or stored with consistent bounds that survive re-validation
+    if case["scaler"]:
+        reversing = make_transforms(var_scales=[-2.0, 0.5, 4.0][:V], var_offsets=[1.0, 0.0, -1.0][:V])
+        try:
+            flipped = EnOptConfig.model_validate(_copy(cfg), context=reversing)
+        except (ValueError, TypeError):
+            flipped = None
+        except Exception as exc:  # noqa: BLE001
+            j.fail(f"orientation-reversing-transform-raised:{type(exc).__name__}", message=str(exc)[:200])
+            flipped = None
+        if flipped is not None:
+            if np.any(np.asarray(flipped.variables.lower_bounds) > np.asarray(flipped.variables.upper_bounds)):
+                j.fail("inconsistent-bounds-accepted:orientation-reversing-transform", lower=flipped.variables.lower_bounds,
+                       upper=flipped.variables.upper_bounds)
+            else:
+                try:
+                    EnOptConfig.model_validate(flipped.model_dump(round_trip=True))
+                except Exception as exc:  # noqa: BLE001
+                    j.fail(f"revalidation-raised:orientation-reversing-transform:{type(exc).__name__}")
+        j.transitions += 1
+    # the caller's own arrays: a configuration built from ndarrays (writable ones, and read-only views of writable
+    # buffers) must not change when the caller later writes to those buffers
+    for flavour in ("writable", "read-only-view"):
+        bases: list[np.ndarray] = []
+        try:
+            aliased = EnOptConfig.model_validate(_as_arrays(_copy(cfg), flavour, bases), context=transforms)
+        except Exception as exc:  # noqa: BLE001
+            j.fail(f"ndarray-input-rejected:{flavour}:{type(exc).__name__}", message=str(exc)[:200])
+            continue
+        before_write = canon(aliased)
+        if before_write != canon(config):
+            j.fail(f"ndarray-input-gives-different-configuration:{flavour}", where=first_diff(before_write, canon(config)))
+        for base in bases:
+            base += 1.0
+        after_write = canon(aliased)
+        if after_write != before_write:
+            j.fail(f"configuration-changes-with-callers-array:{flavour}", where=first_diff(before_write, after_write))
+        j.transitions += 1
     for path, array in arrays:
         writable = bool(array.flags.writeable)
         if not writable:
